@@ -249,7 +249,23 @@ def queue_rules(R, P):
     bsw = [e for e in f.calls("aws_array_list_swap") if (RU.strip_addr(f, RU.arg(f, e.node, 0)) or {}).get("f") == "backpointers"]
     sw = [e for e in sw if e not in bsw]
     by_call = bool(bsw) and not slotw
-    exchange = bsw if by_call else slotw
+    # ... or both slots read into locals first and then stored crosswise through subscripts (slots[a] = was_in_b; ...)
+    idxw = [e for e in f.all_events() if e.kind == "access" and e.node["k"] == "index" and e.mode == "w" and "backpointers.data" in f.show(e.node["a"][0], alias=True)]
+    by_value = bool(idxw) and not slotw and not bsw
+    exchange = bsw if by_call else (idxw if by_value else slotw)
+    placed = {}   # local -> (slot it is stored into, slot it was read from, its declaration)
+    if by_value:
+        for w in idxw:
+            a_ = _assignment_of(f, w)
+            v_ = RU.uncast(f, a_["a"][1]) if a_ is not None else None
+            if v_ is not None and v_["k"] == "var" and v_.get("sc") == "local":
+                decls = [(e, v) for e in f.all_events() if e.kind == "decl" for v in e.node["vars"] if v["n"] == v_["n"] and v.get("init") is not None]
+                src = None
+                if len(decls) == 1:
+                    i_ = RU.uncast(f, decls[0][1]["init"])
+                    if i_ is not None and i_["k"] == "index" and "backpointers.data" in f.show(i_["a"][0], alias=True):
+                        src = f.show(i_["a"][1])
+                placed[v_["n"]] = (f.show(w.node["a"][1]), src, decls[0][0] if len(decls) == 1 else None)
 
     def bp_index(x):
         x = RU.uncast(f, x)
@@ -264,6 +280,8 @@ def queue_rules(R, P):
             return None, None, None
         if base["k"] == "un" and base["op"] == "deref" and f.show(base["a"][0]) in slots:
             return slots[f.show(base["a"][0])], f.show(base), s  # read in place, through the slot pointer
+        if base["k"] == "var" and base.get("sc") == "local" and base["n"] in placed:
+            return placed[base["n"]][0], base["n"], s  # the slot this very node was stored into
         if base["k"] == "var" and base.get("sc") == "local":
             decls = [(e, v) for e in f.all_events() if e.kind == "decl" for v in e.node["vars"] if v["n"] == base["n"] and v.get("init") is not None]
             if len(decls) == 1 and bp_index(decls[0][1]["init"]) is not None:
@@ -280,7 +298,10 @@ def queue_rules(R, P):
             seen[idx] = f.show(a_["a"][1])
             names[idx] = nm
             fresh_reads = fresh_reads and all(ev_dominates(f, x, rd, dom) for x in exchange)
-    if not by_call:
+    if by_value:
+        R.check(len(sw) == 1 and sorted(p_[0] for p_ in placed.values()) == ["a", "b"], "LOCKSTEP", "swap:slot-pointers", "s_swap()", "the slots stored to are backpointers[a] and backpointers[b]",
+                "the handle slots stored to are %s, expected indices a and b" % sorted(p_[0] for p_ in placed.values()))
+    elif not by_call:
         R.check(len(sw) == 1 and sorted(slots.values()) == ["a", "b"], "LOCKSTEP", "swap:slot-pointers", "s_swap()", "slot pointers address backpointers[a] and backpointers[b] (%s)" % slots,
                 "the handle slots addressed are %s, expected indices a and b" % slots)
     else:
@@ -293,7 +314,10 @@ def queue_rules(R, P):
     # the exchange precedes the index stores
     R.check(len(exchange) == (1 if by_call else 2) and all(ev_dominates(f, w, s_, dom) for w in exchange for s_ in stores), "LOCKSTEP", "swap:exchange-before-reindex", "s_swap()", "handle slots exchanged before the indices are rewritten",
             "the handle slots are not both exchanged before the indices are rewritten")
-    if not by_call:
+    if by_value:
+        crossed = len(placed) == 2 and all(src is not None and src != dst and d_ is not None and all(ev_dominates(f, d_, w, dom) for w in idxw) for dst, src, d_ in placed.values()) and {p_[0] for p_ in placed.values()} == {p_[1] for p_ in placed.values()}
+        R.check(crossed, "LOCKSTEP", "swap:slots-really-exchanged", "s_swap()", "each slot receives what was read from the other slot before either was written (%s)" % {k: (v[1], "->", v[0]) for k, v in placed.items()})
+    elif not by_call:
         xs = {f.show(w.node["a"][0]): f.show(_assignment_of(f, w)["a"][1]) for w in slotw if _assignment_of(f, w)}
         tmpv = [v for v in xs.values() if not v.startswith("*")]
         R.check(len(xs) == 2 and any(v.startswith("*") and v[1:] in slots and v[1:] != k for k, v in xs.items()) and len(tmpv) == 1, "LOCKSTEP", "swap:slots-really-exchanged", "s_swap()", "slot contents exchanged through a temporary (%s)" % xs)
@@ -400,6 +424,9 @@ def queue_rules(R, P):
     popc = [e for e in f.calls("aws_array_list_pop_back") if argstr(f, e.node, 0) == "queue->container"]
     popb = [e for e in f.calls("aws_array_list_pop_back") if argstr(f, e.node, 0) == "queue->backpointers"]
     getb = [e for e in f.calls("aws_array_list_get_at") if argstr(f, e.node, 0) == "queue->backpointers"]
+    # (aws_array_list_back reads the last slot by definition; read before the handle array is popped - ordered below - that
+    # is the slot the removed element was moved to, the handle array being as long as the container was: LOCKSTEP)
+    getb += [e for e in f.calls("aws_array_list_back") if argstr(f, e.node, 0) == "queue->backpointers"]
     geti = [e for e in f.calls("aws_array_list_get_at") if argstr(f, e.node, 0) == "queue->container"]
     inval = [e for e in f.field_accesses(rec="aws_priority_queue_node", field="current_index", modes=("w",))]
     sift = f.calls("s_sift_either")
@@ -435,7 +462,7 @@ def queue_rules(R, P):
         for an, A, bn, B in order:
             okc = all((b_ in RU.reach_from(f, a_)) and (a_ not in RU.reach_from(f, b_)) for a_ in A for b_ in B)
             R.check(okc, "INVALIDATE", "remove:%s<%s" % (an, bn), where(f, B[0]), "%s precedes %s" % (an, bn), "%s can happen before %s: the handle invalidated is not the departing element's / the heap is re-ordered with the departing element still in it" % (bn, an))
-        R.check(is_last(RU.arg(f, getb[0].node, 2)), "INVALIDATE", "remove:reads-handle-of-last-slot", where(f, getb[0]), "the handle read is the one of the (former) last slot, where the removed element now is",
+        R.check(getb[0].node["callee"] == "aws_array_list_back" or is_last(RU.arg(f, getb[0].node, 2)), "INVALIDATE", "remove:reads-handle-of-last-slot", where(f, getb[0]), "the handle read is the one of the (former) last slot, where the removed element now is",
                 "the handle invalidated is read from slot %s, not from the last slot" % argstr(f, getb[0].node, 2, addr=False))
         a_ = _assignment_of(f, inval[0])
         R.check(a_ is not None and f.is_const(a_["a"][1]) == SIZE_MAX and f.show(inval[0].node["a"][0]) == argstr(f, getb[0].node, 1), "INVALIDATE", "remove:marks-SIZE_MAX", where(f, inval[0]), "departing handle marked SIZE_MAX")
@@ -518,7 +545,9 @@ def queue_rules(R, P):
     heap_index_formulas(R, P, dn, up)
     for f, want in ((up, [("parent_item", "child_item")]), (dn, [("first_item", "other_item"), ("first_item", "other_item")])):
         preds = [e for e in f.indirect_calls() if RU.indirect_via(f, e.node) == ("aws_priority_queue", "pred")]
-        R.check([(f.show(RU.arg(f, e.node, 0)), f.show(RU.arg(f, e.node, 1))) for e in preds] == want, "HEAP-SHAPE", "%s:comparator-operands" % f.name, "%s()" % f.name, "comparator applied as pred(upper, lower)")
+        import re as _re
+        plain = lambda t_: _re.sub(r"[A-Za-z_][A-Za-z0-9_]*\$\d+\$", "", t_)  # locals of an expanded helper keep their own names
+        R.check([(plain(f.show(RU.arg(f, e.node, 0))), plain(f.show(RU.arg(f, e.node, 1)))) for e in preds] == want, "HEAP-SHAPE", "%s:comparator-operands" % f.name, "%s()" % f.name, "comparator applied as pred(upper, lower)")
         for e in preds:
             ok = False
             for b in f.blocks.values():
@@ -593,23 +622,41 @@ def heap_index_formulas(R, P, dn, up):
     from sa.num import Num, Poly as _P, entails
     # children
     num = Num(dn, P, _Fix("root", lambda r: r))
-    tgt = [e for b in dn.blocks.values() for e in b.elems if e["k"] == "decl" and any(v["n"] == "first" for v in e["vars"])]
-    dl = [e for b in dn.blocks.values() for e in b.elems if e["k"] == "decl" and any(v["n"] == "left" for v in e["vars"])]
-    R.require(len(tgt) == 1 and len(dl) == 1, "s_sift_down: declarations of `left` / `first` not found")
-    if tgt and dl:
+    # the elements s_sift_down looks at while at slot r are those at r, 2r+1 and 2r+2: NUM value of the index argument of
+    # every aws_array_list_get_at_ptr(&container, .., idx), with root fixed to a symbolic r (whatever the locals are called
+    # and wherever the comparison code lives)
+    reads = [e for e in dn.calls("aws_array_list_get_at_ptr") if (RU.strip_addr(dn, RU.arg(dn, e.node, 0)) or {}).get("f") == "container"]
+    R.require(len(reads) >= 3, "s_sift_down: the reads of the root and its two children not found (%d)" % len(reads))
+    if reads:
+        rootn = dn.params[1]["n"]
+
         def small_root(n_, st):
-            v = n_.read({"k": "var", "n": "root", "sc": "param", "t": dn.params[1]["t"], "id": -1}, st)
+            v = st.env.get("v:" + rootn)
+            if v is None:
+                v = n_.read({"k": "var", "n": rootn, "sc": "param", "t": dn.params[1]["t"], "id": -1}, st)
             st.add(v - 2 ** 61)  # indices are far below SIZE_MAX/4: the shifts do not wrap
             st.add(-v)
-            st.notes["rootv"] = v
-        num.pre_hooks = {dl[0]["id"]: small_root}
-        sts = num.states_at({tgt[0]["id"]}).get(tgt[0]["id"], [])
-        R.require(len(sts) >= 1, "s_sift_down: no state at the child computation")
-        for st in sts:
-            r = st.notes.get("rootv")
-            l, rt = st.env.get("v:left"), st.env.get("v:right")
-            ok = r is not None and l is not None and rt is not None and l == r * 2 + 1 and rt == r * 2 + 2
-            R.check(ok, "HEAP-SHAPE", "children-of", "s_sift_down()", "children of slot i are 2i+1 and 2i+2", "the child indices of slot i are computed as %r and %r" % (l, rt))
+        num = Num(dn, P, _Fix(rootn, lambda r: r))
+        num.pre_hooks = {el["id"]: small_root for b_ in dn.blocks.values() for el in b_.elems if isinstance(el.get("id"), int)}
+        sts = num.states_at({e.node["id"] for e in reads})
+        seen, okc = set(), True
+        for e in reads:
+            for st in sts.get(e.node["id"], []):
+                cur = st.env.get("v:" + rootn)
+                iv = num.val(RU.arg(dn, e.node, 2), st)
+                if cur is None or iv is None:
+                    okc = False
+                    seen.add(repr(iv))
+                elif iv == cur:
+                    seen.add("root")
+                elif iv == cur * 2 + 1:
+                    seen.add("left")
+                elif iv == cur * 2 + 2:
+                    seen.add("right")
+                else:
+                    okc = False
+                    seen.add(repr(iv))
+        R.check(okc and {"root", "left", "right"} <= seen, "HEAP-SHAPE", "children-of", "s_sift_down()", "at slot i the elements read are those at i, 2i+1 and 2i+2", "at slot i s_sift_down reads the elements at %s" % sorted(seen))
     # parent: the variable s_sift_up exchanges the slot `index` with is computed - wherever and however often - by expressions
     # that give r for index = 2r+1 and for index = 2r+2 (NUM on every defining expression, both parities, all r < 2^61)
     sw_ = up.calls("s_swap")
